@@ -19,6 +19,9 @@
 //!       copy) of a rank 2–4 view whose inner sizes cross the tile / block boundaries: logical row-major order.
 //!   `red a=<base>@<dims> k=<n>` → `shape=… data=…`   ReduceSum (keepdims) over the innermost `k` axes of an
 //!       i32 view with arbitrary strides (`reduce`: contiguous-chunks fast path vs lanes / packed slices).
+//!   `im2col c=<n> h=<n> w=<n> k=<kh,kw> pads=<t,l,b,r> str=<sh,sw> dil=<dy,dx> ist=<sc,sth,stw> steps=<col,row>`
+//!       → `rows=… cols=… rc=… ry=… rx=… cy=… cx=… my=… mx=…` | `panic`: the offset tables of the real
+//!       `build_im2col` for an image view with those strides (NCHW, NHWC-permuted, stepped, transposed, stride 0).
 //!   `cov <names>` → `not-exercised=<names>`: registry operators (translate/registry_ops.py) without a case.
 //! Oracle-only requests (`#lay …`): for every catalogue operator, the same logical inputs presented as
 //! contiguous tensors (baseline) and as views of differently laid-out storage — permuted, transposed, strided
@@ -507,6 +510,56 @@ fn uop_case(cx: &mut Ctx, rng: &mut Rng) {
     cx.out.case(&req, &ans, None, true);
 }
 
+fn im2col_case(cx: &mut Ctx, rng: &mut Rng) {
+    let (c, h, w) = (1 + rng.usize_below(3), 1 + rng.usize_below(5), 1 + rng.usize_below(5));
+    let (kh, kw) = (1 + rng.usize_below(3), 1 + rng.usize_below(3));
+    let pads: Vec<usize> = (0..4).map(|_| rng.usize_below(3)).collect();
+    let (sh, sw) = (1 + rng.usize_below(3), 1 + rng.usize_below(3));
+    let (dy, dx) = (1 + rng.usize_below(2), 1 + rng.usize_below(2));
+    let (sc, sth, stw) = match rng.below(7) {
+        0 => (h * w, w, 1),              // NCHW
+        1 => (1, w * c, c),              // NHWC storage permuted to CHW
+        2 => (h * w * 2, w * 2, 2),      // stepped along W
+        3 => (h * w * 2, w * 2, 1),      // stepped along H
+        4 => (h * w, 1, h),              // H/W transposed storage
+        5 => (h * w, 0, 1),              // broadcast along H
+        _ => (rng.usize_below(30), rng.usize_below(12), rng.usize_below(5)),
+    };
+    let steps = (*rng.pick(&[1usize, 4, 8, 16]), *rng.pick(&[1usize, 2, 4]));
+    let req = format!(
+        "im2col c={c} h={h} w={w} k={kh},{kw} pads={} str={sh},{sw} dil={dy},{dx} ist={sc},{sth},{stw} steps={},{}",
+        hcommon::join(pads.iter(), ","),
+        steps.0,
+        steps.1
+    );
+    let len = (c - 1) * sc + (h - 1) * sth + (w - 1) * stw + 1;
+    let data = vec![0f32; len];
+    let r = hcommon::catch(|| {
+        let img = rten_tensor::NdTensorView::<f32, 3>::from_slice_with_strides([c, h, w], &data[..], [sc, sth, stw]).map_err(|e| format!("{e:?}"))?;
+        let t = rten::verif::build_im2col(img, [kh, kw], [pads[0], pads[1], pads[2], pads[3]], [sh, sw], [dy, dx], steps.0, steps.1);
+        let j = |v: &[i32]| if v.is_empty() { "-".to_string() } else { hcommon::join(v.iter(), ",") };
+        Ok::<_, String>(format!(
+            "rows={} cols={} rc={} ry={} rx={} cy={} cx={} my={} mx={}",
+            t.n_rows,
+            t.n_cols,
+            j(&t.row_offsets.chan),
+            j(&t.row_offsets.y),
+            j(&t.row_offsets.x),
+            j(&t.col_offsets.y),
+            j(&t.col_offsets.x),
+            t.max_y_offset,
+            t.max_x_offset
+        ))
+    });
+    let ans = match r {
+        Ok(Ok(s)) => s,
+        Ok(Err(_)) => "err".to_string(),
+        Err(_) => "panic".to_string(),
+    };
+    cx.out.bucket(if ans.starts_with("rows") { "im2col:ok" } else { "im2col:panic" });
+    cx.out.case(&req, &ans, None, ans.starts_with("rows") && stw != 1 && pads[1] > 0);
+}
+
 fn cp_case(cx: &mut Ctx, rng: &mut Rng) {
     let edge = [1usize, 3, 4, 5, 15, 16, 17, 63, 64, 65, 70];
     let mut sh = vec![*rng.pick(&edge), *rng.pick(&edge)];
@@ -761,6 +814,7 @@ fn run(args: &Args) {
         ti_case(&mut cx, &mut rng);
         red_case(&mut cx, &mut rng);
         tip_case(&mut cx, &mut rng);
+        im2col_case(&mut cx, &mut rng);
     }
     for _ in 0..n_glue / 30 {
         cp_case(&mut cx, &mut rng);
